@@ -111,3 +111,10 @@ level_filter = dict(
     bounded=dict(bound='4 x 3 x 3 configurations x sequences of 1..2 (thorough: 3) statements over 16 kinds', form='b'),
     dropped=[], trusted=['g++ / libstdc++ / fmt execute the real frontend and backend'], min_obligations=1, timeout=900)
 UNITS += [level_filter]
+exit_paths = dict(
+    name='BE.exit_paths', primary='C07', props={'C07'}, kind='L', funcs=[], enforce=None,
+    desc='the end of a process with the REAL backend thread, every case in a forked child whose file and wait status the parent inspects: Backend::stop, return from main (atexit), a second start/stop cycle, and the six handled signals raised on a thread that has logged - what the contract units list as assumptions (atexit ordering, what another process reads from the file, wait status)',
+    native=dict(cpp='exit_paths.cpp', file='include/quill/Backend.h', function='Backend::{start,stop}, BackendManager::stop_backend_thread, BackendWorker::{run,stop,_exit}, detail::on_signal', defs_quick=['KMAX=4'], defs_thorough=['KMAX=16']),
+    bounded=dict(bound='9 ways to end the process x 3 backend configurations x 2 thread configurations x K = 0..4 (thorough: 0..16) statements; one schedule per case (the OS decides the interleaving of the backend thread)', form='b'),
+    dropped=[], trusted=['one OS schedule per case: this stand-in samples interleavings, the contract units BW.exit / BW.main_loop / SIG.on_signal carry the "for every point" part'], min_obligations=1, timeout=1500)
+UNITS += [exit_paths]
